@@ -116,6 +116,8 @@ class EnsureHarness:
                     n += 1
             tickets = ticket_source() if scen.get('shared_agen') else None
 
+            errs = {}         # aid -> the very exception instance the awaitable raised
+
             def make_body(aid, c, tgt, is_future):
                 async def body():
                     lp = aio.get_running_loop()
@@ -132,7 +134,7 @@ class EnsureHarness:
                     if c['out'] == 'raise':
                         if not is_future:
                             emit('aw_done', aid, 'raise')
-                        raise HarnessError(aid)
+                        raise errs.setdefault(aid, HarnessError(aid))
                     if c['out'] == 'cancel':
                         # the awaitable's own outcome is a cancellation (somebody cancelled what it was waiting for)
                         if not is_future:
@@ -194,6 +196,8 @@ class EnsureHarness:
                             emit('ret', aid, 'val', r)
                         except HarnessError as e:
                             emit('ret', aid, 'exc', e.args[0])
+                            if e is not errs.get(e.args[0]):
+                                emit('not_the_instance_raised', aid, repr(e), repr(e.__cause__))
                         except aio.CancelledError:
                             emit('ret', aid, 'cancelled', aio.current_task().cancelling())
                         except RuntimeError as e:
@@ -393,6 +397,10 @@ class C17(Check):
             else:
                 st[f'outcome_{kind}'] += 1
             st[f'branch_{"own" if own else mode}'] += 1
+        for e in log:
+            if e[0] == 'not_the_instance_raised':
+                res.violate('C17:wrong-outcome:copy', 'the caller received an exception that is not the instance the awaitable raised',
+                            aid=e[1], got=e[2], cause=e[3])
         mr = [e for e in log if e[0] == 'max_runners']
         if r.sched.max_runners_seen > 1 or (mr and mr[0][1] > 1):
             res.violate('C17:loop-run-twice', 'an event loop was being run by two threads at once')
